@@ -156,13 +156,14 @@ Lemma m2m_remove : forall s sd o v, inv_m2m s -> v <> 0 ->
              /\ inv_m2m s'.
 Proof.
   intros s sd o v I V. destruct (inv_m2m_sd s sd I) as (A & N1 & _).
-  unfold step_prim, run_call, FUEL. rewrite exec_coll_remove, exec_fire_remove. unfold tok_remove.
+  unfold step_prim, run_call, FUEL. rewrite exec_coll_remove.
+  destruct (memb v (coll_of s sd o)) eqn:M; [|exists s; auto].
+  rewrite exec_fire_remove. unfold tok_remove.
   rewrite (fire_remove_m2m 5 s sd o v (sd, TRemove) V (or_introl eq_refl)). cbn [bind].
-  rewrite detach_m_coll. destruct (memb v (coll_of s sd o)) eqn:M.
-  - eexists. split; [left; reflexivity|]. apply memb_In in M. apply m2m_del; auto.
-    + apply remove1_NoDup. apply N1.
-    + intros x. apply remove1_In. apply N1.
-  - eexists. split; [right; reflexivity|]. apply memb_false in M. rewrite detach_m_noop by assumption. exact I.
+  rewrite detach_m_coll, M.
+  eexists. split; [left; reflexivity|]. apply memb_In in M. apply m2m_del; auto.
+  - apply remove1_NoDup. apply N1.
+  - intros x. apply remove1_In. apply N1.
 Qed.
 
 Lemma m2m_delitem : forall s sd o i, inv_m2m s ->
